@@ -109,6 +109,11 @@ def run(shard, rec):
                     y = -x
                 elif r < 0.3:
                     y = x * (1 + 2.0 ** -(s - 3))
+                r = rng.random()
+                if r < 0.25:                      # operands given as Python ints (constructor and operator coercion paths)
+                    y = rng.choice([-1, 1]) * rng.choice([rng.randrange(1, 1 << min(s - 1, 10)), rng.randrange(1, 12), 3, 5, 7])
+                    if r < 0.08:
+                        x = rng.choice([-1, 1]) * rng.randrange(1, 1 << min(s - 1, 10))
                 if op == 'div' and y == 0:
                     continue
                 todo.append((l, op, x, y))
@@ -122,7 +127,13 @@ def run(shard, rec):
             what = f'm=1 SecFlt({l})'
             feats = {'l': l}
             try:
-                r = apply(op, secflt(x), secflt(y))
+                if isinstance(y, int) and op != 'io' and (x + y) % 2:
+                    r = apply(op, secflt(x), y)               # public int operand coerced by the operator
+                    rec.count('int_operand_coerced')
+                else:
+                    r = apply(op, secflt(x), secflt(y))
+                    if isinstance(y, int):
+                        rec.count('int_operand_constructed')
                 got = mpc.run(mpc.output(r))
             except Exception as e:
                 rec.violation(f'{what}: {x!r} {op} {y!r} raised {type(e).__name__}: {e}', dict(feats, mechanism='exception', op=op), {'case': case}, case=case)
